@@ -433,3 +433,86 @@ Theorem C20_refused_backend : forall w conn' w' tr ok,
   C20.dial_refused w -> C20.dial_refused (C20.after_dial w) -> tcp_backend_send None w = (conn', w', tr, ok) ->
   ok = false /\ tr = [EDial None; EDial None] /\ conn' = None /\ w_conns w' = w_conns w /\ w_next w' = w_next w.
 Proof. exact C20.C20_refused_backend. Qed.
+
+(* ------------------------------------------------------------------ C09 *)
+
+From Model Require Lockset Policy.
+From Model.gen Require Accesses.
+From Model.proofs Require C09.
+(* for ALL well-formed traces (= all schedules): a trace in which every location obeys one of
+   Locked / Owned / InitOnly / Handoff has no two conflicting accesses unordered by
+   happens-before (program order, Rel->Acq, Fork->child, k-th Send->k-th Recv) *)
+Theorem C09_lockset_sound : forall (policy : Lockset.loc -> Lockset.discipline) (tr : Lockset.trace),
+  Lockset.wf_trace tr -> Lockset.disciplined policy tr -> Lockset.race_free tr.
+Proof. exact Lockset.lockset_sound. Qed.
+
+(* the literal "written only before any Fork" is an instance of InitOnly *)
+Theorem C09_init_before_any_fork : forall tr l, Lockset.wf_trace tr ->
+  (forall i t, Lockset.access_at tr i = Some (t, l, true) ->
+     forall k t0 t1, (k < i)%nat -> nth_error tr k <> Some (Lockset.Fork t0 t1)) ->
+  Lockset.obeys tr l (Lockset.InitOnly Lockset.main_thread).
+Proof. exact Lockset.init_before_any_fork. Qed.
+
+(* the table regenerated from /repo by tools/locktab on this run: every recorded access site
+   obeys the discipline the policy gives its field *)
+Theorem C09_discipline : forallb Policy.site_ok Accesses.accesses = true.
+Proof. exact C09.C09_discipline. Qed.
+
+(* every struct field written outside a constructor is classified by the policy *)
+Theorem C09_policy_complete : forallb Policy.classified Policy.written_fields = true.
+Proof. exact C09.C09_policy_complete. Qed.
+
+(* every field the policy names exists in the package *)
+Theorem C09_policy_wellformed : Policy.policy_fields_exist = true.
+Proof. exact C09.C09_policy_wellformed. Qed.
+
+(* the acquires-while-holding graph (lexical + through the call graph) has no cycle *)
+Theorem C09_lock_order_acyclic : Policy.lock_order_acyclic = true.
+Proof. exact C09.C09_lock_order_acyclic. Qed.
+
+(* the cached tables (roots reaching a function, must-hold locks, transitively acquired
+   mutexes, lock order) are what their definitions compute, and are closed under the call graph *)
+Theorem C09_tables :
+  Policy.RR = Policy.prop_iter 64%nat Accesses.calls Policy.root_init /\ Policy.RR_closed = true /\
+  Policy.MH = Policy.mh_step (Policy.mh_step (Policy.mh_step (Policy.mh_step nil))) /\ Policy.MH_sound = true /\
+  Policy.ACQ = Policy.prop_iter 64%nat (map Policy.swap Policy.kept_calls) Policy.acq_init /\ Policy.ACQ_closed = true /\
+  Policy.ORDER = Policy.dedup_edges Policy.order_edges.
+Proof. exact C09.C09_tables. Qed.
+
+(* bridge: a well-formed trace whose memory accesses are instances of the recorded sites
+   (instantiation assumptions I0..I6 of proofs/C09.v, spelled out) is race free *)
+Theorem C09_bridge :
+  forall (tr : Lockset.trace) (site : nat -> Accesses.access) (obj : nat -> nat)
+         (loc_of : nat -> String.string -> String.string -> Lockset.loc)
+         (mtx : nat -> String.string -> Lockset.mutex) (guard : nat -> nat)
+         (root_of : Lockset.tid -> String.string) (owner : nat -> Lockset.tid)
+         (pol : Lockset.loc -> Lockset.discipline),
+    (forall l, (exists i t w, Lockset.access_at tr i = Some (t, l, w)) \/ Lockset.obeys tr l (pol l)) ->
+    (forall i t l w, Lockset.access_at tr i = Some (t, l, w) ->
+       In (site i) Accesses.accesses /\ Accesses.a_ctor (site i) = false /\ Accesses.a_atomic (site i) = false /\
+       l = loc_of (obj i) (Accesses.a_struct (site i)) (Accesses.a_field (site i)) /\ w = Accesses.a_write (site i)) ->
+    (forall i t l w, Lockset.access_at tr i = Some (t, l, w) ->
+       match Policy.policy_of (Accesses.a_struct (site i)) (Accesses.a_field (site i)) with
+       | Some (Policy.LockedOwn m) => pol l = Lockset.Locked (mtx (obj i) m)
+       | Some (Policy.LockedBy m) => pol l = Lockset.Locked (mtx (guard (obj i)) m)
+       | Some (Policy.ConfinedTo _) => pol l = Lockset.Owned (owner (obj i))
+       | Some Policy.Atomic => False
+       | Some Policy.InitOnly | Some (Policy.HandedOff _) | None => Lockset.obeys tr l (pol l)
+       end) ->
+    (forall i t l w m, Lockset.access_at tr i = Some (t, l, w) ->
+       existsb (fun h => (String.eqb (Accesses.h_mutex h) m && String.eqb (Accesses.h_owner h) (Accesses.a_base (site i)))%bool)
+               (Policy.held_at (site i)) = true ->
+       Lockset.holds tr i t (mtx (obj i) m)) ->
+    (forall i t l w m, Lockset.access_at tr i = Some (t, l, w) ->
+       existsb (fun h => String.eqb (Accesses.h_mutex h) m) (Policy.held_at (site i)) = true ->
+       Lockset.holds tr i t (mtx (guard (obj i)) m)) ->
+    (forall i t l w, Lockset.access_at tr i = Some (t, l, w) ->
+       In (root_of t) (Policy.roots_reaching (Accesses.a_func (site i)))) ->
+    (forall i t l w r, Lockset.access_at tr i = Some (t, l, w) ->
+       Policy.policy_of (Accesses.a_struct (site i)) (Accesses.a_field (site i)) = Some (Policy.ConfinedTo r) ->
+       root_of t <> "main"%string) ->
+    (forall i t l w r, Lockset.access_at tr i = Some (t, l, w) ->
+       Policy.policy_of (Accesses.a_struct (site i)) (Accesses.a_field (site i)) = Some (Policy.ConfinedTo r) ->
+       root_of t = r -> t = owner (obj i)) ->
+    Lockset.wf_trace tr -> Lockset.race_free tr.
+Proof. exact C09.bridge_race_free. Qed.
